@@ -25,8 +25,8 @@ HEAD, the demonstration fails with it and passes without it, and the existing te
 packages pass with it; then the registered quick check of the property is run with `VERIF_REPO`
 pointing at that worktree. /repo itself is never touched. Waves 2-6 were told what the earlier
 waves had produced and asked for something substantially different (wave 6: six properties only, the ones whose checks had
-caught least at first evaluation in waves 4 and 5; two changes each; wave 7: one change each for C01, C02, C03, C13, C14, C17 and C19, the
-properties with the fewest changes so far, written in a later session by agents told nothing of the earlier waves). Each change is in
+caught least at first evaluation in waves 4 and 5; two changes each; wave 7: one change each for C01, C02, C03, C10, C12, C13, C14, C17, C19 and C20 (a C18 change
+was produced too, but its evaluation did not finish within the session and it is not kept), written in a later session by agents told nothing of the earlier waves). Each change is in
 `seeded/<name>/` (`patch.diff`, the demonstration, `meta.json` with what it needs to manifest, what
 was run, and the history of evaluations).
 
